@@ -406,6 +406,37 @@ func ruleC12(c *Ctx) {
 	c.Floor(nrule, 5)
 }
 
+func ruleC13Persist(c *Ctx) {
+	const rule = "C13-PERSIST"
+	c.Doc(rule, "Replica.SetCheckpoint reports success only after encodeToFile(&r.info, volume.meta) succeeded in that very call (an acknowledged checkpoint is on disk), under the replica lock; Server.SetCheckpoint forwards to it for the open replica")
+	fn := c.Anchor(rule, fRep+"SetCheckpoint")
+	if fn == nil {
+		return
+	}
+	R := NewRenderer(fn)
+	enc := callsMatching(fn, R, fRep+"encodeToFile", `"volume.meta"`)
+	if len(enc) != 1 {
+		c.Bad(rule, FnName(fn)+" | persists", "", "expected one encodeToFile(&r.info, volume.meta)", nil)
+		return
+	}
+	c.Guard(rule, fn, successReturns(fn), "return success", nil, Need{Desc: "volume.meta written in this call", Instr: func(in ssa.Instruction) bool { return in == enc[0] }})
+	c.Guard(rule, fn, enc, "persist checkpoint", lockOrUnlock, needWLock("replica lock taken"),
+		Need{Desc: "info.Checkpoint holds the requested snapshot", Instr: func(in ssa.Instruction) bool {
+			s, ok := in.(*ssa.Store)
+			return ok && R.V(s.Addr) == "&$0.info.Checkpoint" && R.V(s.Val) == "$1"
+		}})
+	if f := c.Anchor(rule, fSrv+"SetCheckpoint"); f != nil {
+		FR := NewRenderer(f)
+		cs := CallsTo(f, fRep+"SetCheckpoint")
+		if len(cs) == 1 && callRender(FR, cs[0]) == fRep+"SetCheckpoint($0.r,$1)" {
+			c.OK(rule, FnName(f)+" | forwards the snapshot name", c.P.InstrPos(cs[0]), "", false)
+		} else {
+			c.Bad(rule, FnName(f)+" | forwards the snapshot name", "", "Server.SetCheckpoint does not forward to the open replica", nil)
+		}
+	}
+	c.Floor(rule, 4)
+}
+
 // persistedFirst: the store's value was passed to writeVolumeMetaData / encodeToFile whose
 // success edge dominates the store (persist, then publish in memory).
 func persistedFirst(fn *ssa.Function, s *ssa.Store) bool {
@@ -452,6 +483,11 @@ func ruleC16Repl(c *Ctx) {
 	} else {
 		c.Bad(rule, FnName(fn)+" | every chain member truncated to the new size", "", "Truncate is not applied to every member of r.Chain() with the new size", nil)
 	}
+	// nothing is recorded in memory before every chain file was truncated successfully
+	var mem []ssa.Instruction
+	mem = append(mem, StoresTo(fn, "Info", "Size")...)
+	mem = append(mem, StoresTo(fn, "diffDisk", "location")...)
+	c.Guard(rule, fn, mem, "record new size in memory", nil, atom("every chain member truncated", "+* -len("+fRep+"Chain($0)#0) >=0"))
 	enc := CallsTo(fn, fRep+"encodeToFile")
 	stSize := StoresTo(fn, "Info", "Size")
 	stLoc := StoresTo(fn, "diffDisk", "location")
